@@ -69,6 +69,7 @@ type Frame struct {
 	isThread  bool
 	cut       map[*ssa.BasicBlock]bool // loop headers already cut in this activation
 	params    []Val
+	rangeRet  *rangeRet // frame is a sync.Map.Range callback activation
 	specAddrs map[string]*Ptr
 	// contract scope (top-level frame only)
 	contract *Contract
